@@ -2,14 +2,14 @@
 # usage: seedconfirm5.sh <scratch-worktree> <seed-out-dir> <demo-dest-dir> : confirm a seeded change in a scratch worktree:
 # builds, demo passes without / fails with the patch, existing tests of the touched packages pass with it. Prints one JSON line.
 export GOFLAGS=-mod=mod GOPROXY=off GOSUMDB=off GOTOOLCHAIN=local
-W=$1; O=$2; DEST=$3
+W=$1; O=$2; DEST=$3; RUN=${4:+-run $4}
 cd $W; git checkout -q -- .; git clean -fdq
 demos=$(ls $O/*_test.go 2>/dev/null)
 for d in $demos; do cp $d $DEST/; done
-r0=$(go test -vet=off -count=1 ./$DEST/ 2>&1 | grep -E "^(ok|FAIL|--- FAIL)" | head -5 | tr '\n' ' ')
+r0=$(go test -vet=off -count=1 $RUN ./$DEST/ 2>&1 | grep -E "^(ok|FAIL|--- FAIL)" | head -5 | tr '\n' ' ')
 if ! git apply $O/patch.diff; then echo "{\"apply\":\"FAILED\"}"; git checkout -q -- .; git clean -fdq; exit; fi
 b=$(go build ./... 2>&1 | grep -v "^#" | head -3 | tr '\n' ' ')
-r1=$(go test -vet=off -count=1 ./$DEST/ 2>&1 | grep -E "^(ok|FAIL|--- FAIL)" | head -5 | tr '\n' ' ')
+r1=$(go test -vet=off -count=1 $RUN ./$DEST/ 2>&1 | grep -E "^(ok|FAIL|--- FAIL)" | head -5 | tr '\n' ' ')
 for d in $demos; do rm $DEST/$(basename $d); done
 pk=$( (git diff --name-only | xargs -n1 dirname; echo $DEST) | sort -u | sed 's|^|./|; s|$|/...|' | tr '\n' ' ')
 r2=$(go test -vet=off -count=1 $pk 2>&1 | grep -E "^(ok|FAIL|--- FAIL)" | grep -v "no test files" | tr '\n' ' ')
